@@ -38,15 +38,19 @@ MANIFEST = {
             "clauses in order (C29_refines), no operation changes the parent field or writes below the offset and the "
             "only possible failure is the AccessError of a builtin head (C29_parent_unchanged), every head index of a "
             "predicate along the ancestor chain resolves to the extension's current definition "
-            "(C29_redirect_consistent[_chain]). Every run replays random histories on real ClauseDB objects and on the "
+            "(C29_redirect_consistent[_chain]), the group id of a new annotated disjunction differs from every group "
+            "id in the database and its ancestors (C29_groups_fresh). Every run replays random histories on real ClauseDB objects and on the "
             "compiled model (node tables, heads, redirects, get_node of every index, clause lists compared exactly) "
             "and compares answers/probabilities of every extension with a fresh prepare of the union text and of "
             "every parent before/after.",
     "note": "Trusted: Lean kernel, standard axioms, harness/driver glue, the hand-written model (tied to the code only "
-            "on the histories run). The model's get_node is the repaired one (repo_patches/C29_grandchild_redirect.diff); "
-            "for get_node as written before the repair redirect consistency is refuted in Lean "
-            "(C29_redirect_consistent_V0_refuted) and the witness is replayed on the real code. Not modelled: node "
-            "payloads, ClauseIndex argument indexing (C13), scoping, alias redirects of use_module beyond the builtin "
+            "on the histories run). The model's get_node and AD group id are the repaired ones "
+            "(repo_patches/C29_grandchild_redirect.diff, C29_ad_group_id.diff); for the code as written before the "
+            "repairs redirect consistency and group freshness are refuted in Lean (C29_redirect_consistent_V0_refuted, "
+            "C29_groups_fresh_V0_refuted) and both witnesses are replayed on the real code on every run; the harness "
+            "detects which variant the implementation has and ties the model's V0 observables (getNodeV0/defsV0, group "
+            "ids shifted by the offset) to it, so the structural correspondence stays meaningful before the repairs. "
+            "Not modelled: node payloads other than signatures/node references/group ids, ClauseIndex argument indexing (C13), scoping, alias redirects of use_module beyond the builtin "
             "prelude (theorems are about databases whose redirects all come from _add_head).",
     "design_ref": "DESIGN.md §6 C29",
 }
@@ -67,12 +71,25 @@ def builtin_table(it):
 def correspondence_case(hist, tag, variant, bad_tail, gv0=False):
     """Protocol lines for the model and the expected outputs computed from the real implementation.
 
-    Returns (lines, expected) where expected[i] is None (not compared), a string (exact) or ('prefix', str)."""
+    Returns (lines, expected) where expected[i] is None (not compared), a string (exact) or ('prefix', str).
+    An exception of the implementation that the model does not predict becomes an expected value `EXC:<class>`
+    (which no model output equals), and the case ends there."""
+    lines, exp = [], []
+    try:
+        _correspondence_case(hist, tag, variant, bad_tail, gv0, lines, exp)
+    except Infra:
+        raise
+    except Exception as e:
+        lines.append("dump %sd0" % tag)
+        exp.append("EXC:%s: %s" % (type(e).__name__, str(e)[:120]))
+    return lines[:len(exp)], exp[:len(lines)]
+
+
+def _correspondence_case(hist, tag, variant, bad_tail, gv0, lines, exp):
     from problog.program import PrologString
     from problog.clausedb import ClauseDB
     eng = U.engine()
     it = U.Interner()
-    lines, exp = [], []
     dbs = []
     name = lambda j: "%sd%d" % (tag, j)
 
@@ -133,7 +150,6 @@ def correspondence_case(hist, tag, variant, bad_tail, gv0=False):
         for f, a in sigs:
             emit("%s %s %s" % ("defs" if variant == "repaired" else "defs0", name(j), it.sig(f, a)),
                  U.impl_defs(db, f, a))
-    return lines, exp
 
 
 def detect_variant():
@@ -236,9 +252,12 @@ def check_history(hist):
     return problems
 
 
-def shrink_history(hist, kind):
-    """Greedy delta-debugging: drop leaf databases, statements, queries, body literals while a problem of `kind` stays."""
+def shrink_history(hist, kind, deadline):
+    """Greedy delta-debugging: drop leaf databases, statements, queries, body literals while a problem of `kind` stays
+    (candidates tried after `deadline` count as not failing, so shrinking stops there)."""
     def fails(h):
+        if time.time() > deadline:
+            return False
         return any(p[0] == kind for p in check_history(h))
 
     def drop_db(h, j):
@@ -305,14 +324,20 @@ def run(ctx):
     ctx.proof_phase(MODULE, THEOREMS, refutations=REFUTATIONS)
     drv = ctx.driver("Drivers.C29")
     ctx.notes.append("lean phase %.1fs" % (time.time() - ctx.t0))
-    variant, vinfo = detect_variant()
+    try:
+        variant, vinfo = detect_variant()
+    except Exception as e:
+        variant, vinfo = "unknown", "%s: %s" % (type(e).__name__, e)
     ctx.notes.append("implementation's get_node: %s (children seen through a stale head index / current head: %s)" % (
         variant, vinfo))
     ctx.obligation("implementation's get_node is the modelled (repaired) one", variant == "repaired",
                    "variant %s %s: redirect consistency is refuted for it (C29_redirect_consistent_V0_refuted)" % (
                        variant, vinfo))
 
-    gvariant, ginfo = detect_group_variant()
+    try:
+        gvariant, ginfo = detect_group_variant()
+    except Exception as e:
+        gvariant, ginfo = "unknown", "%s: %s" % (type(e).__name__, e)
     ctx.notes.append("implementation's AD group id: %s %s" % (gvariant, ginfo))
     ctx.obligation("implementation's annotated-disjunction group id is the modelled (repaired) one: len(self)",
                    gvariant == "repaired", "variant %s %s: freshness is refuted for it (C29_groups_fresh_V0_refuted)" % (
@@ -363,7 +388,7 @@ def run(ctx):
                 cases.append((h, bad))
         chunk = 25
         tc = time.time()
-        ccap = ctx.budget(25.0, 400.0)
+        ccap = ctx.budget(20.0, 300.0)
         for c0 in range(0, len(cases), chunk):
             lines, exp, owner = [], [], []
             for ci, (h, bad) in enumerate(cases[c0:c0 + chunk]):
@@ -405,7 +430,7 @@ def run(ctx):
     # ---------------------------------------------------------------- search: extension vs fresh union, parent before/after
     rng = ctx.sub_rng("search")
     n = ctx.budget(40, 2500)
-    cap = ctx.budget(45.0, 700.0)
+    cap = ctx.budget(40.0, 600.0)
     t0 = time.time()
     todo = [U.WITNESS_GRANDCHILD, U.WITNESS_AD_GROUP] if hists is None else hists
     if hists is None:
@@ -426,12 +451,17 @@ def run(ctx):
                 found[key] = (h, p)
     ctx.notes.append("search phase %.1fs" % (time.time() - t0))
     ctx.sample({"search_history": describe(todo[min(1, len(todo) - 1)])[:600]})
+    reported = set()
+    shrink_deadline = time.time() + ctx.budget(30.0, 300.0)
     for (kind, depth), (h, p) in sorted(found.items(), key=lambda kv: (kv[0][1], kv[0][0]))[:3]:
-        small = shrink_history(h, kind)
+        small = shrink_history(h, kind, shrink_deadline)
         ps = [q for q in check_history(small) if q[0] == kind]
         if not ps:  # flaky: keep the original
             small, ps = h, [p]
         q = ps[0]
+        if describe(small) in reported:
+            continue
+        reported.add(describe(small))
         sig = {"kind": q[0], "depth": "child" if q[2] <= 2 else "grandchild+"}
         ctx.fail("%s at db%d (depth %d): %s; history: %s" % (q[0], q[1], q[2], q[3][:500], describe(small)[:1500]),
                  {"history": small, "problem": list(q), "union_text": U.union_text(small, q[1])}, sig)
